@@ -1,7 +1,7 @@
 (* C01 - NUTS transition is reversible with respect to the target density.
    Statements only; proofs in proofs/Balance.v and proofs/Tree_facts.v. *)
 From Coq Require Import ZArith QArith List Bool.
-From NutsV Require Import model.Tree proofs.Tree_facts proofs.Balance.
+From NutsV Require Import model.Tree proofs.Tree_facts proofs.Balance proofs.Balance2.
 Import ListNotations.
 
 (* Detailed balance on every orbit: for all positive weights (pi up to a constant), every U-turn
@@ -16,6 +16,52 @@ Theorem C01_detailed_balance :
        wt b * trans_prob wt turn nofault nofault (std_opts maxdepth) b a)%Q.
 Proof. exact detailed_balance. Qed.
 Print Assumptions C01_detailed_balance.
+
+(* the target is invariant on every orbit: summing over the window of states that can reach b *)
+Theorem C01_stationary :
+  forall (wt : Z -> Q) (turn : Z -> Z -> bool) (maxdepth : nat),
+    (forall i, 0 < wt i)%Q ->
+    forall b : Z,
+      (zsum (b - 2 ^ Z.of_nat maxdepth + 1) (Z.to_nat (2 * 2 ^ Z.of_nat maxdepth - 1))
+         (fun a => wt a * trans_prob wt turn nofault nofault (std_opts maxdepth) a b) == wt b)%Q.
+Proof. exact stationary. Qed.
+Print Assumptions C01_stationary.
+
+Theorem C01_transition_is_a_distribution :
+  forall (wt : Z -> Q) (turn : Z -> Z -> bool) (maxdepth : nat) (b : Z),
+    (zsum (b - 2 ^ Z.of_nat maxdepth + 1) (Z.to_nat (2 * 2 ^ Z.of_nat maxdepth - 1))
+       (fun a => trans_prob wt turn nofault nofault (std_opts maxdepth) b a) == 1)%Q.
+Proof. exact trans_prob_total. Qed.
+Print Assumptions C01_transition_is_a_distribution.
+
+(* the shape of the trajectory (interval, depth, whether a U-turn stopped it) is a function of the
+   doubling directions only, not of the coins ... *)
+Theorem C01_shape_sound :
+  forall (wt : Z -> Q) (turn : Z -> Z -> bool) (maxdepth : nat) (a : Z) (ds : list bool) (r : dres),
+    douts (pdraw wt turn nofault nofault (std_opts maxdepth) a) ds r ->
+    dshape turn maxdepth a ds = Some (d_lo r, d_hi r, d_depth r, negb (d_maxdepth r)).
+Proof. exact shape_sound. Qed.
+Print Assumptions C01_shape_sound.
+
+(* ... and the trajectory built from any state b of it with the mirrored doubling choices is the
+   same trajectory with the same stopping depth; both direction sequences have the same length,
+   hence the same probability 2^-length *)
+Theorem C01_trajectory_mirror :
+  forall (turn : Z -> Z -> bool) (maxdepth : nat) (a : Z) (ds : list bool) (lo hi : Z) (depth : nat) (flag : bool),
+    dshape turn maxdepth a ds = Some (lo, hi, depth, flag) ->
+    forall b, (lo <= b <= hi)%Z ->
+      length (mirror turn maxdepth a b ds) = length ds /\
+      dshape turn maxdepth b (mirror turn maxdepth a b ds) = Some (lo, hi, depth, flag).
+Proof. exact trajectory_mirror. Qed.
+Print Assumptions C01_trajectory_mirror.
+
+Theorem C01_direction_sequence_mass :
+  forall (wt : Z -> Q) (turn : Z -> Z -> bool) (maxdepth : nat), (forall i, 0 < wt i)%Q ->
+  forall (a : Z) (ds : list bool),
+    (expectD (pdraw wt turn nofault nofault (std_opts maxdepth) a) ds (fun _ => 1) ==
+     match dshape turn maxdepth a ds with Some _ => halfpow (length ds) | None => 0 end)%Q.
+Proof. exact dir_mass. Qed.
+Print Assumptions C01_direction_sequence_mass.
 
 (* closed form: P(a->b) = [a=b] Keep + Rr (linear in the current selection) *)
 Theorem C01_trans_prob_formula :
